@@ -20,6 +20,12 @@ C07_Items == {It(k, d, "none", 0, FALSE, 0, doc) : k \in {"def", "adef", "class"
              \cup {It("def", d, deco, 0, FALSE, 0, Free1) : d \in 1..2, deco \in {"property", "setter", "deleter", "static", "classm"}}
              \cup {It(k, d, deco, 0, FALSE, 0, Goog1) : k \in {"def", "adef"}, d \in 0..1, deco \in {"plain", "wraps"}}
 C07_ModDocs == {NoDoc, Free1, Goog2}
+\* a core alphabet for longer modules (4 items): every kind and decorator once, two docstring kinds
+C07_Core == {It(k, d, "none", 0, FALSE, 0, doc) : k \in {"def", "class"}, d \in 0..2, doc \in {NoDoc, Goog2}}
+            \cup {It("adef", 1, "none", 0, FALSE, 0, Free1)}
+            \cup {It(k, d, "none", 0, FALSE, 0, NoDoc) : k \in {"iftrue", "ifmain", "try"}, d \in 0..1}
+            \cup {It("def", 1, deco, 0, FALSE, 0, Free1) : deco \in {"property", "setter", "static"}}
+            \cup {It("def", 0, "wraps", 0, FALSE, 0, Goog1)}
 \* freeform layouts with a word that switches one group of prompt lines off (Benchmark:, Script:, ...)
 C07_HdrDocs == {DocH("free", "d3", "own", "own", lead, nblk, 0, nsrc, 1, hdr) : lead \in 1..2, nblk \in 1..2, nsrc \in {1, 3}, hdr \in {"none", "lead", "mid", "both"}}
 C07_HdrItems == {It(k, d, "none", 0, FALSE, 0, doc) : k \in {"def", "class"}, d \in 0..1, doc \in {x \in C07_HdrDocs : x.nblk = 2 \/ x.hdr \in {"none", "lead"}}}
